@@ -184,11 +184,11 @@ func AsPendingAttestation(v View, err error) (*PendingAttestationView, error) {
 type PendingAttestations []*PendingAttestation
 
 func (a *PendingAttestations) Deserialize(spec *common.Spec, dr *codec.DecodingReader) error {
-	return dr.List(func() codec.Deserializable {
+	return common.ReadVariableSizeElemList(dr, func() codec.Deserializable {
 		i := len(*a)
 		*a = append(*a, &PendingAttestation{})
 		return spec.Wrap((*a)[i])
-	}, 0, uint64(spec.MAX_ATTESTATIONS)*uint64(spec.SLOTS_PER_EPOCH))
+	}, uint64(spec.MAX_ATTESTATIONS)*uint64(spec.SLOTS_PER_EPOCH))
 }
 
 func (a PendingAttestations) Serialize(spec *common.Spec, w *codec.EncodingWriter) error {
